@@ -860,6 +860,37 @@ package protocol
 //@   ghostset after URI.AppendBytes: abLen = len(result)
 //@   top-ensures abIs(r) && abIs(u.fullURI)
 
+// C17 (relative references): Update with a path-relative reference re-assembles scheme://host, the directory part of
+// the current (decoded) path RE-ENCODED by the path quoting, then the reference as given, and parses that string; the
+// decoded directory is never spliced in raw (a '?', '#' or '%XY' in it would change meaning when parsed again).
+//@ ghost var ubStep int
+//@ ghost var ubArr int
+//@ ghost var ubOff int
+//@ ghost var ubLen int
+//@ ghost var ubPArr int
+//@ ghost var ubPOff int
+//@ macro ubIs(s) = arr(s) == ubArr && off(s) == ubOff && len(s) == ubLen
+//@ func URI.updateBytes(u, newURI, buf) r
+//@   props C17
+//@   abstract
+//@   noinline
+//@   panics
+//@   modifies ubStep, ubArr, ubOff, ubLen, ubPArr, ubPOff
+//@   ghostset-at-entry ubStep = 0
+//@   ghostset after URI.Path: ubPArr = arr(result)
+//@   ghostset after URI.Path: ubPOff = off(result)
+//@   ghostset after URI.appendSchemeHost: ubStep = 1
+//@   ghostset after URI.appendSchemeHost: ubArr = arr(result)
+//@   ghostset after URI.appendSchemeHost: ubOff = off(result)
+//@   ghostset after URI.appendSchemeHost: ubLen = len(result)
+//@   assert before AppendQuotedPath: ubStep == 1 && ubIs(arg0) && arr(arg1) == ubPArr && off(arg1) == ubPOff && len(arg1) == n + 1 && n >= 0
+//@   ghostset after AppendQuotedPath: ubStep = 2
+//@   ghostset after AppendQuotedPath: ubArr = arr(result)
+//@   ghostset after AppendQuotedPath: ubOff = off(result)
+//@   ghostset after AppendQuotedPath: ubLen = len(result)
+//@   assert before append#2: ubStep == 1 && ubIs(arg0) && sameSlice(arg1, newURI)
+//@   assert before append#5: ubStep == 2 && ubIs(arg0) && sameSlice(arg1, newURI)
+
 // URI.parse: panic-free for every host/uri; the path buffer and the original-path buffer stay separate arrays
 // (normalizePath's precondition), which parse itself preserves.
 // C17 (how a request target is split): for a target without scheme (a host is given, no ':' in the target, no
